@@ -8,3 +8,8 @@ From Coq Require Import NArith.
 
 (* `!x` on an unsigned integer of [width] bits *)
 Definition not_w (width : N) (x : N) : N := N.lnot x width.
+
+(* checked `a - b` on N (debug build), as Base.usub on nat *)
+From Compio.Model Require Import Base.
+Definition usubN (a b : N) : R N :=
+  if N.leb b a then Ok (a - b)%N else Panic P_SUB_OVERFLOW.
